@@ -49,4 +49,12 @@ def minCostOK (E : Env S) (s : St S) : Bool :=
       | none => decide (c.inf ≠ 0)
       | some m => decide (c = Cost.ofRat m)
 
+/-- Boolean form of the fixpoint condition `Stable` of the minimal-cost theorem
+    (PS/Proofs/Enum/BeapMin.lean): recomputing the cost of any queued derivation changes nothing -/
+def stableB (E : Env S) (s : St S) : Bool :=
+  (AList.keys E.G.rules).all fun nt => (s.queueOf nt).all fun el =>
+    match recost E s nt el with
+    | none => false
+    | some el' => decide (el'.cost = el.cost)
+
 end PS.Beap
